@@ -20,6 +20,9 @@ for f in sorted(glob.glob(os.path.join(V, "variants", "benign", "extensions", "*
 # round 10: two refactorings and two extensions per property at the anchored functions the earlier rounds had not visited
 for f in sorted(glob.glob(os.path.join(V, "variants", "benign", "round10", "*.diff"))):
     specs.append({"name": "round10:" + os.path.basename(f)[:-5], "patch": os.path.relpath(f, V)})
+# round 13: refactorings aimed at the sites of the clauses added in rounds 11 and 12
+for f in sorted(glob.glob(os.path.join(V, "variants", "benign", "round13", "*.diff"))):
+    specs.append({"name": "round13:" + os.path.basename(f)[:-5], "patch": os.path.relpath(f, V)})
 only = sys.argv[1:]
 for _once in [0]:
     for sp in specs:
